@@ -391,6 +391,22 @@ _STD_FD = Q.re.compile(r'^yash_env::io::Fd::(STDIN|STDOUT|STDERR)$')
 _WRITE_IMPL = Q.re.compile(r'(\bWrite|\bWriteAll)( for .*)?>::(write|write_all)$')
 
 
+# combinators of Result / Option that hand the success payload on unchanged
+_PAYLOAD_KEEPERS = [Q.re.compile(r'^core::result::Result::<T, E>::(map_err|or_else|inspect|inspect_err|unwrap|expect|unwrap_or_else|ok|copied|cloned)$'),
+                    Q.re.compile(r'^core::option::Option::<T>::(ok_or|ok_or_else|unwrap|expect|inspect|copied|cloned|or_else)$'),
+                    Q.re.compile(r'^<yash_env::io::Fd as core::clone::Clone>::clone$')]
+
+
+def _fd_source(body, du, operand):
+    """value_source that also steps back through payload-preserving combinators (`.map_err(..)?`, `.ok()`, `.unwrap()`)."""
+    src = Q.value_source(body, du, operand)
+    for _ in range(8):
+        if src is None or not Q.callee_is(src, _PAYLOAD_KEEPERS) or not src['a']:
+            return src
+        src = Q.value_source(body, du, src['a'][0])
+    return src
+
+
 def _param_index(F, body, du, operand):
     """Index of the parameter of body.root that `operand` is (directly, or as a capture of the async fn's coroutine), else None."""
     o = du.origin(operand)
@@ -444,7 +460,7 @@ def fd_origins(F, body, du, operand, use_block, depth=4, seen=None):
             if idx < len(ct['a']):
                 out += fd_origins(F, cb, Q.DefUse(cb), ct['a'][idx], cblk, depth - 1, seen)
         return out
-    src = Q.value_source(body, du, operand)
+    src = _fd_source(body, du, operand)
     if src is None:
         return [('unknown', 'a value the analysis cannot trace (%s in %s)' % (o['k'], body.root), None)]
     if Q.callee_is(src, TMPFILE_CALLS):
@@ -462,15 +478,51 @@ def fd_origins(F, body, du, operand, use_block, depth=4, seen=None):
             if key in seen or depth == 0:
                 return []
             seen.add(key)
-            mb = F.main_body(n)
-            mdu = Q.DefUse(mb)
-            for b, s in _ok_returns(mb):
-                for op in s['rv']['ops']:
-                    if 'cp' in op or 'mv' in op:
-                        out += fd_origins(F, mb, mdu, op, None, depth - 1, seen)
+            out += [(c, x, i) for c, x, i, _, _ in returned_fd_origins(F, n, depth - 1, seen)]
             if out:
                 return out
     return [('unknown', 'the result of %s' % pp.callee(src), None)]
+
+
+def returned_fd_origins(F, root, depth=4, seen=None):
+    """Origins of the descriptor a function returns on success: [(class, text, info, body, node)] over every definition of the
+    return place (Ok(..) aggregates, or the forwarded result of a workspace function; Err(..) and `?` residuals are failures)."""
+    seen = seen if seen is not None else set()
+    mb = F.main_body(root)
+    du = Q.DefUse(mb)
+    out = []
+    for blk, idx, node in du.defs.get(0, []):
+        if idx == 't':
+            if Q.callee_is(node, Q.FROM_RESIDUAL):
+                continue
+            names = [n for n in Q.callee_names(node) if n in F.bodies and n.startswith('yash_')]
+            if names and ('ret', names[0]) not in seen and depth > 0:
+                seen.add(('ret', names[0]))
+                out += [(c, x, i, mb, node) for c, x, i, _, _ in returned_fd_origins(F, names[0], depth - 1, seen)]
+            else:
+                out.append(('unknown', 'the result of %s' % pp.callee(node), None, mb, node))
+            continue
+        if node['k'] != 'assign' or node['lhs'].get('p'):
+            continue
+        rv = node['rv']
+        if rv['k'] == 'agg' and rv.get('adt') == 'core::result::Result':
+            if rv.get('variant') == 'Ok':
+                for op in rv['ops']:
+                    if 'cp' in op or 'mv' in op:
+                        out += [(c, x, i, mb, node) for c, x, i in fd_origins(F, mb, du, op, blk, depth, seen)]
+            continue
+        if rv['k'] == 'use' and ('cp' in rv['o'] or 'mv' in rv['o']):
+            # a whole Result forwarded from an awaited / plain call of a workspace function
+            src = _fd_source(mb, du, rv['o'])
+            names = [n for n in (Q.callee_names(src) if src is not None else []) if n in F.bodies and n.startswith('yash_')]
+            if names and ('ret', names[0]) not in seen and depth > 0:
+                seen.add(('ret', names[0]))
+                out += [(c, x, i, mb, node) for c, x, i, _, _ in returned_fd_origins(F, names[0], depth - 1, seen)]
+            else:
+                out.append(('unknown', 'a forwarded value (%s)' % (pp.callee(src) if src is not None else 'untraced'), None, mb, node))
+            continue
+        out.append(('unknown', 'a return value of unrecognised shape', None, mb, node))
+    return out
 
 
 @RS.rule('C14.R8', 'K-TAINT', 'every descriptor the shell itself writes to is a standard descriptor or a temporary file; never the write end of a '
@@ -513,33 +565,31 @@ def r9(cx):
     fn = 'yash_semantics::redir::here_doc::open_fd'
     body = F.main_body(fn)
     cx.fn(body.fn)
-    du = Q.DefUse(body)
-    oks = _ok_returns(body)
-    cx.require(oks, 'open_fd has no Ok(fd) return')
-    for b, s in oks:
-        ops = [op for op in s['rv']['ops'] if 'cp' in op or 'mv' in op]
-        cx.require(len(ops) == 1, 'Ok return of open_fd does not carry one value')
-        orgs = fd_origins(F, body, du, ops[0], b)
-        cx.site('%s: Ok(fd) at %s, fd <- %s' % (fn, body.loc(s), sorted({'%s (%s)' % (c, x) for c, x, _ in orgs}) or 'no origin'))
-        if not orgs:
-            cx.violation(fn, 'here-doc-fd:untraced', 'the descriptor returned by open_fd could not be traced to its origin', loc=body.loc(s))
-        for c, x, info in orgs:
-            if c != 'tmpfile':
-                cx.violation(fn, 'here-doc-fd:%s' % c, 'open_fd hands the command a descriptor that is not the temporary file (%s): the whole '
-                             'body is stored before any reader exists, so the store must be unbounded and rewindable; a pipe holds only its '
-                             'capacity and the shell blocks for ever writing a larger body' % x, loc=body.loc(s))
+    rets = returned_fd_origins(F, fn)
+    cx.require(rets, 'open_fd has no success return that carries a descriptor')
+    for c, x, info, rb, node in rets:
+        cx.fn(rb.fn)
+        cx.site('%s: success return at %s, fd <- %s (%s)' % (fn, rb.loc(node), c, x))
+        if c != 'tmpfile':
+            cx.violation(fn, 'here-doc-fd:%s' % c, 'open_fd hands the command a descriptor that is not the temporary file (%s): the whole '
+                         'body is stored before any reader exists, so the store must be unbounded and rewindable; a pipe holds only its '
+                         'capacity and the shell blocks for ever writing a larger body' % x, loc=rb.loc(node))
+            continue
+        # the temporary file returned was handed to a filling call first (decided in the body that opens it)
+        tb = info['body']
+        tdu = Q.DefUse(tb)
+        fills = []
+        for cb, ct in tb.calls():
+            if ct is info['t'] or Q.callee_is(ct, CLOSE):
                 continue
-            # the temporary file returned is one that was handed to a filling call first (same body only)
-            if info['body'] is body:
-                fills = []
-                for cb, ct in body.calls():
-                    if ct is info['t'] or Q.callee_is(ct, CLOSE):
-                        continue
-                    if any(('cp' in a or 'mv' in a) and Q.value_source(body, du, a) is info['t'] for a in ct['a']):
-                        fills.append((cb, ct))
-                if not any(body.dominates(cb, b) for cb, ct in fills):
-                    cx.violation(fn, 'here-doc-fd:not-filled', 'open_fd can return the temporary file without having passed it to the function '
-                                 'that writes the content', loc=body.loc(s))
+            if any(('cp' in a_ or 'mv' in a_) and _fd_source(tb, tdu, a_) is info['t'] for a_ in ct['a']):
+                fills.append((cb, ct))
+        okb = [b_ for b_, s_ in _ok_returns(tb)
+               if any(('cp' in o_ or 'mv' in o_) and _fd_source(tb, tdu, o_) is info['t'] for o_ in s_['rv']['ops'])]
+        for b_ in okb:
+            if not any(tb.dominates(cb, b_) for cb, ct in fills):
+                cx.violation(fn, 'here-doc-fd:not-filled', 'the temporary file can be returned without having been passed to the function '
+                             'that writes the content', loc=tb.loc(tb.term(b_)))
     # the filling of a here-document uses the complete-transfer primitive on that descriptor (R5 decides its order with the rewind)
     mod = [bd for f_, bd in F.bodies.items() if f_.startswith('yash_semantics::redir::here_doc::')]
     wr = [(bd, blk, t) for bd in mod for blk, t in Q.find_calls(bd, WRITE_CALLS)]
